@@ -613,7 +613,7 @@ static int re_rec(struct regex *re, struct rstate *rs)
 			continue;
 		}
 		if (ri->ri == RI_MARK) {
-			if (ri->mark < NGRPS)
+			if (ri->mark < LEN(rs->mark))
 				rs->mark[ri->mark] = rs->s - rs->o;
 			rs->pc++;
 			continue;
